@@ -108,7 +108,7 @@ pub fn run(input: &[u8], cfg: &Cfg) -> Trace {
             Ok(Some(Ok(t))) => { let off = it.last_emitted_tag_offset(); tr.items.push((t, off)); }
             Ok(Some(Err(e))) => {
                 let e = conv(&e);
-                if matches!(e, E::TooBig { .. }) && it.buffer.len() != before { tr.alloc_before_reject = true; }
+                if matches!(e, E::TooBig { .. }) && it.buffer.len() > before.max(16) { tr.alloc_before_reject = true; } // growing an undersized buffer to the 16 header bytes is not a payload allocation
                 tr.err = Some(e);
                 return tr;
             }
@@ -615,44 +615,90 @@ fn check_c13_strict(table: &bs::Table, input: &[u8], tr: &Trace, rep: &mut Repor
 
 pub fn alphabet() -> Vec<u8> { vec![0x81, 0x82, 0x87, 0x88, 0x8B, 0xEC, 0x42, 0x86, 0x80, 0x83, 0xFF, 0x40, 0x01, 0x00, 0x05] }
 
-/// Unit 1: all byte strings of length <= L over the header alphabet.
+/// Unit 1: all byte strings of length <= L over the header alphabet (enumeration split over worker threads by first symbol).
 pub fn unit_bytes(l: usize, thorough: bool) -> Report {
     let table = bs::doc_table();
     bs::set_table(table.clone());
     let mut rep = Report::new("bx_iter_bytes");
     let a = alphabet();
-    rep.notes.push(format!("BOUNDED: every byte string of length <= {} over the {}-symbol header alphabet {}; deep checks (C04 capacities/chunkings, C13 masks, C08 buffered sets) on every string of length <= {}", l, a.len(), rf::hex(&a), l.min(if thorough { 5 } else { 4 })));
     let deep_l = l.min(if thorough { 5 } else { 4 });
-    for len in 0..=l {
-        let mut idx = vec![0usize; len];
-        loop {
-            let input: Vec<u8> = idx.iter().map(|i| a[*i]).collect();
-            check_input(&table, &input, &mut rep, thorough, len <= deep_l);
-            if rep.samples.len() < 4 && rep.cases % 50021 == 7 { rep.samples.push(format!("{} -> {}", rf::hex(&input), show_trace(&run(&input, &Cfg::strict())))); }
-            let mut k = len;
-            let mut done = true;
-            while k > 0 { k -= 1; idx[k] += 1; if idx[k] < a.len() { done = false; break; } idx[k] = 0; }
-            if done { break; }
-        }
+    rep.notes.push(format!("BOUNDED: every byte string of length <= {} over the {}-symbol header alphabet {}; deep checks (C04 capacities/chunkings, C13 masks, C08 buffered sets) on every string of length <= {}", l, a.len(), rf::hex(&a), deep_l));
+    check_input(&table, &[], &mut rep, thorough, true);
+    let mut handles = Vec::new();
+    for first in 0..a.len() {
+        let a = a.clone();
+        handles.push(std::thread::Builder::new().stack_size(64 << 20).spawn(move || {
+            let table = bs::doc_table();
+            bs::set_table(table.clone());
+            let mut rep = Report::new("worker");
+            for len in 1..=l {
+                let mut idx = vec![0usize; len];
+                idx[0] = first;
+                loop {
+                    let input: Vec<u8> = idx.iter().map(|i| a[*i]).collect();
+                    check_input(&table, &input, &mut rep, thorough, len <= deep_l);
+                    if rep.samples.len() < 1 && rep.cases % 50021 == 7 { rep.samples.push(format!("{} -> {}", rf::hex(&input), show_trace(&run(&input, &Cfg::strict())))); }
+                    // next string with the same first symbol
+                    let mut k = len;
+                    let mut done = true;
+                    while k > 1 { k -= 1; idx[k] += 1; if idx[k] < a.len() { done = false; break; } idx[k] = 0; }
+                    if done { break; }
+                }
+            }
+            rep
+        }).unwrap());
     }
+    for h in handles { match h.join() { Ok(r) => rep.merge(r), Err(_) => rep.clause("C05: next() never panics", false, || "a worker thread of the enumeration died".to_string()) } }
     rep
 }
 
 /// Unit 2: documents (tag trees through the reference encoder): C01r, C03, C04, C06, C07, C08, C12, C13, C14, C02.
+/// The forests are split over worker threads.
 pub fn unit_docs(budget: usize, thorough: bool) -> Report {
     let table = bs::doc_table();
     bs::set_table(table.clone());
     let mut rep = Report::new("bx_iter_docs");
     let mut docs: Vec<Vec<Node>> = Vec::new();
     for b in 1..=budget { forests(None, b, thorough, &mut docs); }
-    rep.notes.push(format!("BOUNDED: every specification-conformant forest with <= {} nodes over the document specification ({} forests), every subset of its masters encoded with unknown size, every truncation point, junk insertion at every tag boundary", budget, docs.len()));
-    for d in &docs {
+    rep.notes.push(format!("BOUNDED: every specification-conformant forest with <= {} nodes over the document specification ({} forests), every subset of its masters encoded with unknown size, every truncation point, junk insertion at every tag boundary, single-byte mutations", budget, docs.len()));
+    // deeper forests over a small alphabet (Root > Parent > Sub with one leaf type per level): recovery, truncation,
+    // unknown-size closing and mutations need depth and trailing siblings more than they need element variety
+    let mut deep: Vec<Vec<Node>> = Vec::new();
+    for b in (budget + 1)..=(budget + 2) { forests_small(None, b, &mut deep); }
+    rep.notes.push(format!("BOUNDED: plus every forest with {}..={} nodes over the small alphabet Root/UInt/Parent/Child/Sub/Leaf ({} forests)", budget + 1, budget + 2, deep.len()));
+    if let Some(d) = docs.get(docs.len() / 2) { let (b, f) = encode_doc(d); rep.samples.push(format!("{} = {}", f.iter().map(|(t, _)| rf::show(t)).collect::<Vec<_>>().join(","), rf::hex(&b))); }
+    let workers = 15usize;
+    let mut handles = Vec::new();
+    let docs = std::sync::Arc::new(docs);
+    let deep = std::sync::Arc::new(deep);
+    for w in 0..workers {
+        let docs = docs.clone();
+        let deep = deep.clone();
+        handles.push(std::thread::Builder::new().stack_size(64 << 20).spawn(move || {
+            let table = bs::doc_table();
+            bs::set_table(table.clone());
+            let mut rep = Report::new("worker");
+            let mut i = w;
+            while i < docs.len() { doc_work(&table, &docs[i], &mut rep, thorough); i += workers; }
+            let mut i = w;
+            while i < deep.len() { deep_work(&table, &deep[i], &mut rep, thorough); i += workers; }
+            rep
+        }).unwrap());
+    }
+    for h in handles { match h.join() { Ok(r) => rep.merge(r), Err(_) => rep.clause("C05: next() never panics", false, || "a worker thread of the enumeration died".to_string()) } }
+    rep
+}
+
+fn doc_work(table: &bs::Table, d: &Vec<Node>, rep: &mut Report, thorough: bool) {
+    let table = table.clone();
+    let mut rep = rep;
+    {
         let (bytes, flat) = encode_doc(d);
         let ctxd = || format!("doc={} bytes={}", flat.iter().map(|(t, _)| rf::show(t)).collect::<Vec<_>>().join(","), rf::hex(&bytes));
         // C01 (reader half): a conformant document reads back as exactly its tags and offsets, no error
         let tr = run(&bytes, &Cfg::strict());
         rep.clause("C01r/C03: a specification-conformant document reads (strict) as exactly its tags, in order, with their offsets, and no error", tr.err.is_none() && tr.panicked.is_none() && same_items(&tr.items, &flat), || format!("{} -> {}", ctxd(), show_trace(&tr)));
-        check_input(&table, &bytes, &mut rep, thorough, true);
+        check_input(&table, &bytes, &mut *rep, thorough, true);
         // C07: every subset of masters with unknown size reads as the same tag sequence
         let m = count_masters(d);
         if m > 0 && m <= 5 {
@@ -667,39 +713,39 @@ pub fn unit_docs(budget: usize, thorough: bool) -> Report {
                 let same_off = same && t.items.iter().zip(uflat.iter()).all(|(a, b)| a.1 == b.1);
                 rep.clause("C03/C07: offsets of an unknown-size encoding are those of its own bytes", same_off || !same, || format!("{} unknown-mask={:b} -> {}", ctxd(), mask, show_trace(&t)));
                 // headers longer than 8 bytes (8-byte unknown-size fields) under every capacity / chunking / mask
-                check_input(&table, &ub, &mut rep, thorough, true);
-                if thorough || mask == (1 << m) - 1 { check_trunc(&table, &ub, &uflat, &mut rep); }
-                check_c02(&table, &ub, &t, &mut rep);
+                check_input(&table, &ub, &mut *rep, thorough, true);
+                if thorough || mask == (1 << m) - 1 { check_trunc(&table, &ub, &uflat, &mut *rep); }
+                check_c02(&table, &ub, &t, &mut *rep);
             }
         }
-        check_trunc(&table, &bytes, &flat, &mut rep);
+        check_trunc(&table, &bytes, &flat, &mut *rep);
         // the same forest with every size field two bytes wide (multi-byte size fields: cuts inside them, wider headers)
         {
             let dw = with_width(d, 2);
             let (wb, wflat) = encode_doc(&dw);
             let t = run(&wb, &Cfg::strict());
             rep.clause("C01r/C03: a specification-conformant document reads (strict) as exactly its tags, in order, with their offsets, and no error", t.err.is_none() && t.panicked.is_none() && same_items(&t.items, &wflat), || format!("{} width2-bytes={} -> {}", ctxd(), rf::hex(&wb), show_trace(&t)));
-            check_input(&table, &wb, &mut rep, thorough, false);
-            check_trunc(&table, &wb, &wflat, &mut rep);
+            check_input(&table, &wb, &mut *rep, thorough, false);
+            check_trunc(&table, &wb, &wflat, &mut *rep);
         }
-        check_recover(&table, &bytes, &flat, &mut rep, thorough);
-        check_mutations(&table, &bytes, &mut rep, thorough);
-        check_c02(&table, &bytes, &tr, &mut rep);
-        check_pauses(&table, &bytes, &flat, &tr, &mut rep);
-    }
-    // deeper forests over a small alphabet (Root > Parent > Sub with one leaf type per level): recovery, truncation,
-    // unknown-size closing and mutations need depth and trailing siblings more than they need element variety
-    let mut deep: Vec<Vec<Node>> = Vec::new();
-    for b in (budget + 1)..=(budget + 2) { forests_small(None, b, &mut deep); }
-    rep.notes.push(format!("BOUNDED: plus every forest with {}..={} nodes over the small alphabet Root/UInt/Parent/Child/Sub/Leaf ({} forests)", budget + 1, budget + 2, deep.len()));
-    for d in &deep {
+        check_recover(&table, &bytes, &flat, &mut *rep, thorough);
+        check_mutations(&table, &bytes, &mut *rep, thorough);
+        check_c02(&table, &bytes, &tr, &mut *rep);
+        check_pauses(&table, &bytes, &flat, &tr, &mut *rep);
+        }
+}
+
+fn deep_work(table: &bs::Table, d: &Vec<Node>, rep: &mut Report, thorough: bool) {
+    let table = table.clone();
+    let mut rep = rep;
+    {
         let (bytes, flat) = encode_doc(d);
         let tr = run(&bytes, &Cfg::strict());
         rep.cases += 1; rep.nontrivial += 1;
         rep.clause("C01r/C03: a specification-conformant document reads (strict) as exactly its tags, in order, with their offsets, and no error", tr.err.is_none() && tr.panicked.is_none() && same_items(&tr.items, &flat), || format!("bytes={} -> {}", rf::hex(&bytes), show_trace(&tr)));
-        check_recover(&table, &bytes, &flat, &mut rep, thorough);
-        check_trunc(&table, &bytes, &flat, &mut rep);
-        check_mutations(&table, &bytes, &mut rep, false);
+        check_recover(&table, &bytes, &flat, &mut *rep, thorough);
+        check_trunc(&table, &bytes, &flat, &mut *rep);
+        check_mutations(&table, &bytes, &mut *rep, false);
         let m = count_masters(d);
         if m > 0 && m <= 6 {
             for mask in 1u32..(1 << m) {
@@ -710,13 +756,11 @@ pub fn unit_docs(budget: usize, thorough: bool) -> Report {
                 let t = run(&ub, &Cfg::strict());
                 let same = t.err.is_none() && t.items.len() == flat.len() && t.items.iter().zip(flat.iter()).all(|(a, b)| rf::tag_eq(&a.0, &b.0));
                 rep.clause("C07: a document with any subset of masters encoded with unknown size reads as the same tag sequence as the all-known-size encoding", same, || format!("bytes={} unknown-mask={:b} -> {}", rf::hex(&ub), mask, show_trace(&t)));
-                check_c02(&table, &ub, &t, &mut rep);
-                check_mutations(&table, &ub, &mut rep, false);
+                check_c02(&table, &ub, &t, &mut *rep);
+                check_mutations(&table, &ub, &mut *rep, false);
             }
         }
-    }
-    if let Some(d) = docs.get(docs.len() / 2) { let (b, f) = encode_doc(d); rep.samples.push(format!("{} = {}", f.iter().map(|(t, _)| rf::show(t)).collect::<Vec<_>>().join(","), rf::hex(&b))); }
-    rep
+        }
 }
 
 fn extent(bytes: &[u8], tag: &T, off: usize) -> Option<(usize, bool)> {
@@ -899,6 +943,50 @@ fn check_pauses(table: &bs::Table, bytes: &[u8], flat: &[(T, usize)], base: &Tra
             rep.clause("C04: temporary end-of-file at tag boundaries (EOF closing disabled) does not change items, offsets or the first error", same_trace(&t, &noclose), || format!("input={} {} -> {}   without pauses -> {}", rf::hex(bytes), cfg.show(), show_trace(&t), show_trace(&noclose)));
         }
     }
+}
+
+/// C17/C13: headers declaring sizes from tiny to 2^56-2 in every size-field width, at root and inside unknown-size
+/// masters, under the default and a small limit and every tolerance mask: the size error is raised exactly above the
+/// limit, before any allocation; an element within the limit whose payload is missing costs at most its declared size.
+pub fn unit_sizes() -> Report {
+    let table = bs::doc_table();
+    bs::set_table(table.clone());
+    let mut rep = Report::new("bx_iter_sizes");
+    rep.notes.push("BOUNDED: ids {Bin, Str, UInt, Long(2-byte id), Void} x size-field widths 1..=8 x declared sizes {0,1,5,6,8,9,126,1000,100000, limit-1, limit, limit+1, 2^32, 2^40, 2^55, 2^56-2 (those that fit the width)} x contexts {root, inside Root(unknown, 1-byte), inside Root(unknown, 8-byte), mid-document} x limits {default 4e9, 5, 100000} x all 8 tolerance masks x capacities {0, 64}".to_string());
+    let prefixes: Vec<Vec<u8>> = vec![vec![], vec![0x81, 0xFF], vec![0x81, 0x01, 0xFF, 0xFF, 0xFF, 0xFF, 0xFF, 0xFF, 0xFF]];
+    let ids: Vec<Vec<u8>> = vec![vec![0x85], vec![0x84], vec![0x82], vec![0x42, 0x86], vec![0xEC]];
+    let default_limit: u64 = 4_000_000_000;
+    for pre in &prefixes { for id in &ids { for w in 1..=8usize {
+        let mut sizes: Vec<u64> = vec![0, 1, 5, 6, 8, 9, 126, 1000, 100_000, default_limit - 1, default_limit, default_limit + 1, 1 << 32, 1 << 40, 1 << 55, (1u64 << 56) - 2];
+        sizes.retain(|n| (*n as u128) < (1u128 << (7 * w)) - 1);
+        for n in sizes {
+            let mut input = pre.clone();
+            input.extend_from_slice(id);
+            input.extend(sizef(n as usize, w));
+            for (limit_cfg, limit) in [(None, default_limit), (Some(Some(5usize)), 5u64), (Some(Some(100_000usize)), 100_000u64)] {
+                for allow in 0u8..8 { for cap in [0usize, 64] {
+                    // do not let the library allocate gigabytes when the payload is merely missing
+                    if n <= limit && n > 1_000_000 { continue; }
+                    let cfg = Cfg { max: limit_cfg, allow, cap, ..Cfg::strict() };
+                    let t = run(&input, &cfg);
+                    rep.cases += 1; rep.nontrivial += 1;
+                    check_total(&input, &cfg, &t, &mut rep);
+                    let ctx = || format!("input={} {} -> {}", rf::hex(&input), cfg.show(), show_trace(&t));
+                    let numeric_too_long = id[0] == 0x82 || id[0] == 0x42;
+                    if n > limit {
+                        // rejected before any allocation: with the size error unless an earlier check already rejects it
+                        let earlier = matches!(t.err, Some(E::BadData { .. }) | Some(E::Hier { .. }) | Some(E::Oversize { .. }) | Some(E::BadId { .. }));
+                        rep.clause("C17/C13: an element declaring more than the limit is rejected (size error unless an earlier check rejects it) under every tolerance mask", matches!(t.err, Some(E::TooBig { size, .. }) if size as u64 == n) || earlier, &ctx);
+                        rep.clause("C17: a rejected oversize declaration causes no allocation for its payload", t.peak_buf <= cap.max(16), &ctx);
+                    } else if !(numeric_too_long && n > 8) {
+                        rep.clause("C17: an element within the limit whose payload is missing costs at most its declared size", t.peak_buf as u64 <= (cap.max(16) as u64).max(n), &ctx);
+                        rep.clause("C13/C17: the size error is only raised for a declared size above the configured limit", !matches!(t.err, Some(E::TooBig { .. })), &ctx);
+                    }
+                } }
+            }
+        }
+    } } }
+    rep
 }
 
 /// Unit 3: I/O errors from the source surface as a read error (C05), at every position
